@@ -752,6 +752,16 @@ func (p *Prog) nilnessAt(b *ssa.BasicBlock, v ssa.Value, depth int) nilness {
 		for i, e := range x.Edges {
 			pb := x.Block().Preds[i]
 			n := p.nilnessAt(pb, e, depth+1)
+			// the fact established on the very edge into the join (`if v == nil { v = … }`)
+			for _, g := range edgeGuard(pb, x.Block()) {
+				if y, isNil, ok := nilFact(g); ok && sameValue(y, e) {
+					if isNil {
+						n = nnNil
+					} else {
+						n = nnNonNil
+					}
+				}
+			}
 			if res == -1 {
 				res = n
 			} else if res != n {
